@@ -116,6 +116,9 @@ func hexCap(b []byte) string {
 }
 
 func one(c *mon.Ctx, codec frame.RawCodec, comp string, cs gen.Case, id string, stream uint64) {
+	if c.Saturated() {
+		return // the verdict is decided; see mon.Saturated
+	}
 	a := cs.Frame
 	// the COMPRESSED flag: legacy-framed versions only (v5 §2.4.1.2: deprecated, ignored), compressible opcodes
 	flag := comp != "none" && a.Version != ref.V5 && compressible(a.Msg.Opcode())
